@@ -457,6 +457,14 @@ pub fn check_step(s: &Step, tr: &mut Tracker, viols: &mut Vec<Viol>) -> Decides 
                 i += 1;
                 r
             });
+            // "len and current_size reflect the removals"
+            if let Some(p) = post_t {
+                let exp_cur: u128 = x.iter().map(|e| e.size as u128).sum();
+                let pre_consistent = pre.cur == pre.sum_sizes();
+                if pre_consistent && !p.broken && !matches!(s.outcome, Outcome::Panicked { .. }) && (p.cur as u128 != exp_cur || p.len != x.len()) {
+                    out.push(C15, "retain-totals", format!("after retain len = {} and current_size = {}; the survivors are {} entries of total size {}", p.len, p.cur, x.len(), exp_cur));
+                }
+            }
         }
         OpKind::Clear => {
             dec |= C02 | C06;
